@@ -109,3 +109,10 @@ claim("C20", "metamorphic size-doubling test over a catalogue of parameterised d
       "drawn filler word / line break / indent / key length / dump options; oracle: calls(2n)/calls(n) <= 2.15, calls(4n)/calls(2n) <= 2.15, second-difference ratio <= 2.3. Every family is run at least "
       "once per run with default parameters.",
       "Trusted: sys.monitoring PY_START counting (vlib/monitors.py). Work inside single C calls is invisible; the property is stated in interpreter-level calls.")
+claim("C17", "differential property-based testing against pickle protocol 2 as reference: generated object graphs over a class family with one class per reduction shape, compared by a graph bisimulation incl. the sharing partition (Hypothesis)",
+      "Generated object graphs (instance dict, __slots__ with/without __dict__, __getstate__/__setstate__, __getnewargs__, __reduce__ with 2-5 items, subclasses of list/dict/set/tuple/str/int, enum, namedtuple, frozen "
+      "dataclass, tuples, complex, frozenset, OrderedDict, bytearray, range, Decimal, Fraction, timedelta, named classes/functions/builtins; modules in a separate arm) with sharing and constructible / unconstructible "
+      "cycles, instances as keys and set members; Dumper/CDumper x UnsafeLoader/CUnsafeLoader/Loader must rebuild a graph bisimilar to pickle.loads(pickle.dumps(obj, 2)) (classes, state, sharing partition, cycles; "
+      "an unconstructible cycle may instead give ConstructorError); FullLoader/CFullLoader accept exactly the texts without python/object*/module tags.",
+      "Trusted: pickle, the bisimulation in checks/c17.py, the class family in canaries/canary_objs.py (order-insensitive between state and items, because copy and pickle apply them in different orders). "
+      "Four known findings are excluded by case predicates or by construction (deep-mode cycles, state-hashed keys, empty tuple subclass, complex negative zero).")
